@@ -75,7 +75,10 @@ def has_condorcet(instance, weak_condorcet=False):
     :rtype: bool
     """
 
-    scores = defaultdict(lambda: defaultdict(lambda: 0))
+    scores = {
+        alt: {a: 0 for a in instance.alternatives_name if a != alt}
+        for alt in instance.alternatives_name
+    }
     for i, (order, multiplicity) in enumerate(instance.multiplicity.items()):
         alternatives_before = []
         for indif_class in order:
@@ -87,8 +90,8 @@ def has_condorcet(instance, weak_condorcet=False):
                     scores[alt_beaten][alt_winning] -= multiplicity
             alternatives_before.extend(indif_class)
     if weak_condorcet:
-        return any(min(s.values()) >= 0 for s in scores.values())
-    return any(min(s.values()) > 0 for s in scores.values())
+        return any(all(v >= 0 for v in s.values()) for s in scores.values())
+    return any(all(v > 0 for v in s.values()) for s in scores.values())
 
 
 @requires_preference_type("toc", "soc")
